@@ -117,15 +117,79 @@ class Engine:
                      list(st.notes), v.model, kind, site, v.raw)
         if v.status == "sat":
             r.model_txt = self._model_text(v.model, st)
+            r.replay_inputs = self._replay_inputs(v.model, st)
         self.results.append(r)
         return r
+
+    def _replay_inputs(self, model, st):
+        """Concrete inputs for the native replay harness of the contract
+        under verification, read off the counter-model."""
+        c = self.cur_contract
+        spec = getattr(c, "replay_", None) if c is not None else None
+        if not spec or model is None:
+            return None
+        harness, exprs = spec
+        env = getattr(self, "cur_env", {}) or {}
+        old = self.ctl.old if self.ctl is not None else None
+        out = {}
+        saved = (self.spec, self.ctl, self.results)
+        try:
+            for name, expr in exprs.items():
+                try:
+                    s2 = st.clone()
+                    v = self.spec_value(expr, s2, env, old=old)
+                    out[name] = self.concretize(v, model, s2)
+                except Exception as e:          # noqa: a missing input only weakens the replay
+                    out[name] = {"__error__": repr(e)[:200]}
+        finally:
+            self.spec, self.ctl, self.results = saved
+        return {"harness": harness, "inputs": out}
+
+    def concretize(self, v, model, st):
+        ev = lambda t: model.eval(t, model_completion=True)
+        if isinstance(v, VInt):
+            return ev(v.t).as_long()
+        if isinstance(v, VBool):
+            return z3.is_true(ev(v.t))
+        if isinstance(v, VReal):
+            r = ev(v.t)
+            return float(r.numerator_as_long()) / float(r.denominator_as_long())
+        if isinstance(v, VStr):
+            return ev(v.t).as_string()
+        if isinstance(v, VNone):
+            return None
+        if isinstance(v, VOpt):
+            return None if z3.is_true(ev(v.isnone)) else self.concretize(v.inner, model, st)
+        if isinstance(v, (VRef, VObj)):
+            return {"__ref__": ev(v.t).as_long()}
+        if isinstance(v, VTuple):
+            return [self.concretize(x, model, st) for x in v.items]
+        if isinstance(v, VLoc):
+            o = st.loc(v)
+            if o.kind == "dict":
+                return {str(k): self.concretize(x, model, st) for k, x in o.data.items()}
+            return [self.concretize(x, model, st) for x in o.data]
+        if isinstance(v, VSeq):
+            sv = ev(v.t)
+            try:
+                n = ev(z3.Length(v.t)).as_long()
+                return [self.concretize(unflatten(v.elem, (v.t[i],)), model, st) for i in range(min(n, 16))]
+            except Exception:
+                return str(sv)
+        return repr(v)
 
     def _model_text(self, model, st):
         if model is None:
             return ""
         try:
-            return "\n".join(f"{d.name()} = {model[d]}" for d in model.decls()
-                             if not d.name().startswith(("dc!", "k!")))[:6000]
+            lines = []
+            for d in model.decls():
+                if d.name().startswith(("dc!", "k!", "file_text", "env_val", "seq.", "py_", "box_")):
+                    continue
+                txt = f"{d.name()} = {model[d]}"
+                if len(txt) <= 400:
+                    lines.append(txt)
+            return "\n".join(sorted(lines))[:6000]
         except Exception:
             return str(model)[:6000]
 
